@@ -14,7 +14,7 @@ from ..cfg import cfg_of
 from ..flow import flow_of, path_of
 from ..flow import deref
 from ..loader import FUNC, AnalysisError, dotted, last_name, loc, short, walk_local
-from ..util import ASYNC, REPEX, SCHED, SETUP, is_self_attr, last_key
+from ..util import ASYNC, REPEX, SCHED, SETUP, is_self_attr, kwarg, last_key
 from ..variants import B, K
 
 EXPLANATION = (
@@ -529,6 +529,34 @@ def r177(ctx):
         ctx.bad(rid, sets[0], "stop() does not wait for the worker tasks to end after setting the stop event", construct="stop(): no wait for tasks")
 
 
+def r179(ctx):
+    """Submission cannot block. submit_work() enqueues from a throw-away event loop
+    (asyncio.run(...put...)) while the workers dequeue with get_nowait() in the runner's loop: a put
+    that has to wait for room is parked on a waiter of the temporary loop which nobody wakes, so
+    the unit is never queued and submit_work never returns. The work queue is therefore
+    constructed without a positive bound (or everything is enqueued with put_nowait)."""
+    rid = "R-17.9"
+    tree = ctx.tree
+    rel = "infretis/asyncrunner.py"
+    n = 0
+    for m, q, f in tree.all_funcs([rel]):
+        for c in walk_local(f):
+            if not (isinstance(c, ast.Call) and last_name(c) in ("Queue", "LifoQueue", "PriorityQueue") and "asyncio" in dotted(c.func)):
+                continue
+            n += 1
+            bound = c.args[0] if c.args else kwarg(c, "maxsize")
+            if bound is None or (isinstance(bound, ast.Constant) and isinstance(bound.value, int) and bound.value <= 0):
+                ctx.ok(rid, c, f"{q}: the work queue is unbounded - put() completes without waiting")
+            else:
+                awaited_put = [x for mm, qq, g in tree.all_funcs([rel]) for x in walk_local(g) if isinstance(x, ast.Await) and isinstance(x.value, ast.Call) and last_name(x.value) == "put"]
+                if awaited_put:
+                    ctx.bad(rid, c, f"{q} bounds the work queue (maxsize={short(bound, 30)}) while units are enqueued with an awaited put() from the throw-away event loop of submit_work(): once the queue is full the put waits on a future of that temporary loop, the get_nowait() of a worker in the runner's loop cannot wake it, submit_work() never returns and later units are never executed", construct=f"{q}: bounded work queue with awaited put")
+                else:
+                    ctx.ok(rid, c, f"{q}: bounded queue but no awaited put")
+    if n == 0:
+        raise AnalysisError("R-17.9: no asyncio queue construction found in asyncrunner.py")
+
+
 def run(ctx):
     ctx.rule("R-17.4", "completed jobs leave the in-flight record (removal before the commit; selector representation agrees with all filling sites)", floor=4)
     ctx.rule("R-17.6", "the restart file is refreshed completely at every commit: each [current] key write_toml maintains is stored on every path to the dump (a finished run persists an empty in-flight record)", floor=3)
@@ -543,6 +571,8 @@ def run(ctx):
     ctx.attempt(r175, ctx)
     ctx.rule("R-17.7", "shutdown order: the stop event is set only after the queue was seen empty, then the tasks are awaited (every submitted unit is executed)", floor=2)
     ctx.attempt(r177, ctx)
+    ctx.rule("R-17.9", "submission cannot block: the work queue fed by awaited put() from submit_work's throw-away event loop is unbounded", floor=1)
+    ctx.attempt(r179, ctx)
     ctx.rule("R-17.8", "every consumed result is committed: each normal path through treat_output writes restart.toml, so the persisted step counter never lags the steps whose rows were appended (shared with C06 R-6.14 / C08 R-8.11)", floor=1)
     from .shared import commit_every_step
     ctx.attempt(commit_every_step, ctx, "R-17.8", " (the step counter on disk lags the data file: the restarted run performs more than the target number of steps in total)")
@@ -551,6 +581,8 @@ def run(ctx):
 
 
 VARIANTS = [
+    B("c17-work-queue-bounded", "infretis/asyncrunner.py", "asyncio.Queue()", "asyncio.Queue(maxsize=n_workers)", "R-17.9", control=True, why="seeded C17_j"),
+    K("c17-keep-work-queue-explicitly-unbounded", "infretis/asyncrunner.py", "asyncio.Queue()", "asyncio.Queue(maxsize=0)"),
     B("c17-commit-only-when-printing", REPEX, "            self.print_shooted(md_items, pn_news)\n        # save for possible restart\n        self.write_toml()", "            self.print_shooted(md_items, pn_news)\n            # save for possible restart\n            self.write_toml()", "R-17.8", control=True, why="seeded C17_i"),
     B("c17-stop-event-before-drain", ASYNC, "        while self._queue.qsize() > 0:\n            time.sleep(0.1)\n\n        # Stop ongoing tasks\n        self._stop_event.set()\n", "        # Stop ongoing tasks\n        self._stop_event.set()\n        while self._queue.qsize() > 0:\n            time.sleep(0.1)\n", "R-17.7", control=True, why="seeded C17_g"),
     K("c17-keep-drain-test-respelled", ASYNC, "        while self._queue.qsize() > 0:\n            time.sleep(0.1)\n", "        while not self._queue.qsize() == 0:\n            time.sleep(0.1)\n"),
